@@ -452,6 +452,8 @@ def run(ctx):
     nfailed = sum(1 for t in nodes.values() if 'last = "failed"' in t)
     if not nfailed:
         ctx.machinery("vacuity guard: the unpruned model has no failing upload")
+    # TLC's workers dump the graph in a run-dependent order: fix it, so that the seed alone decides what is replayed
+    edges, inits = sorted(edges), sorted(inits)
     paths = list(tlc.transition_cover(nodes, edges, inits, rng=ctx.rng))
     # a cover path may stop in the middle of an upload: run the (deterministic) remaining phases too
     succ = {}
